@@ -194,6 +194,20 @@ theorem eq_agrees_pyeq_needs_keysOk :
     let x := EVal.dict 0 [("a", .cell (.int 1)), ("a", .cell (.int 2))]
     x.plain = true ∧ eq x x = true ∧ pyEqV x x = false := by decide
 
+/-- python `==` of two `collections.OrderedDict`s (class 3 on the wire; reference function, CPython `odict_richcompare`): equal as mappings AND
+the keys in the same insertion order.  Python's `==` of an `OrderedDict` with a plain `dict` is the order-blind mapping comparison. -/
+def pyEqOD (a b : List (String × EVal)) : Bool :=
+  pyEqV (.dict 0 a) (.dict 0 b) && (a.map (·.1) == b.map (·.1))
+
+/-- review v5 (declared, not a defect: the clause "agrees with ==" is about NaN-free PLAIN values and `EVal.plain` means the exact class `dict`): an
+`OrderedDict` is a dict subclass, `eq` compares its key-SORTED items like those of every dict, so two OrderedDicts holding the same items in another
+insertion order are `eq` (`eq_dict_iff`: class, size, every item found under its key) while python's `==` tells them apart - `eq_agrees_pyeq` cannot be
+extended to class-3 dicts.  Generated as `(DC 3 ..)`; model and code agree (True), the `python==` law is not applied to it. -/
+theorem eq_ordered_dict_ignores_order :
+    let a : List (String × EVal) := [("a", .cell (.int 1)), ("b", .cell (.int 2))]
+    let b : List (String × EVal) := [("b", .cell (.int 2)), ("a", .cell (.int 1))]
+    eq (.dict 3 a) (.dict 3 b) = true ∧ pyEqOD a b = false ∧ pyEqOD a a = true ∧ eq (.dict 3 a) (.dict 0 a) = false := by decide
+
 /-! ### in_ -/
 
 /-- membership built on `eq`: an element of the sequence is found … -/
